@@ -721,9 +721,13 @@ def rule_R13(toks: List[Tok], ks: List[int], rep: Report, fn: str) -> List[Tok]:
             limit = f"{idx} < {v}.len()"
             pre = ""
         else:
-            if not re.fullmatch(r"\w+", pat):
+            if re.fullmatch(r"\w+", pat):
+                bind = f"let {pat} = &{v}[{idx}];"
+            elif re.fullmatch(r"&(\w+|\([\w,]+\))", pat):
+                # `|&PAT|` on a slice iterator binds a copy of the element (rustc checks Copy in the generated unit)
+                bind = f"let {pat[1:].replace(',', ', ')} = {v}[{idx}];"
+            else:
                 raise Undecided(f"R13: unsupported closure pattern `{pat}` in {fn}")
-            bind = f"let {pat} = &{v}[{idx}];"
             if take_n is not None:
                 pre = f"let scan_n__{k}: usize = {take_n}; "
                 limit = f"{idx} < scan_n__{k} && {idx} < {v}.len()"
@@ -812,14 +816,14 @@ def _closure_parts(toks: List[Tok], open_paren: int):
     return compact(toks[a + 1:b]), toks[b + 1:close]
 
 
-def rule_loopify(toks: List[Tok], items: List[Tuple[str, int]], rep: Report, fn: str) -> List[Tok]:
+def rule_loopify(toks: List[Tok], items: List[Tuple[str, int, str]], rep: Report, fn: str) -> List[Tok]:
     """Iterator chains with a fixed meaning on slices / vectors, rewritten into the index loop that defines them:
        R15  S.chunks_exact(N).map(|b| E).collect()            ->  push E for b = &S[i..i+N], i = 0, N, 2N, ... while i + N <= len
        R16  S.iter().map(|n| E).sum::<T>()                     ->  accumulate E for n = &S[i]
        R17  V.into_iter().rev().map(|x| E).collect()           ->  push E for x = V[len-1-i]
        R18  S.iter().any(|&x| E)                               ->  scan until E holds
     The anchor is the K-th occurrence of the last method (`collect`, `sum`, `any`) in the /repo text of the function."""
-    for meth, k in sorted(items, key=lambda x: (x[0], -x[1])):
+    for meth, k, elem_ty in sorted(items, key=lambda x: (x[0], -x[1])):
         sites = [i for i, t in enumerate(toks) if t.kind == "ident" and t.text == meth and i > 0 and is_p(toks[i - 1], ".")
                  and (is_p(toks[i + 1], "(") or adj(toks, i + 1, "::"))]
         if k > len(sites):
@@ -943,6 +947,26 @@ def rule_loopify(toks: List[Tok], items: List[Tuple[str, int]], rep: Report, fn:
                   [syn("{ " + f"it_f__{tag} = true;" + " } else { " + f"{idx} += 1;" + " }", toks[hi].pos, " "), Tok("punct", "}", toks[hi].pos, " "),
                    syn(f"it_f__{tag} " + "}", toks[hi].pos, " ")]
             rep.rule("R18 slice.iter().any(closure) -> index loop")
+        elif names[-2:] == ["iter", "find"]:
+            ci = len(calls) - 2
+            recv = recv_upto(ci)
+            cp = _closure_parts(toks, calls[ci + 1][1])
+            if cp is None or not re.fullmatch(r"\([\w,]+\)", cp[0]):
+                raise Undecided(f"R19: unsupported closure in {fn}")
+            x, body = cp
+            if any(t.kind == "ident" and t.text in ("return", "break", "continue") for t in body) or any(is_p(t, "?") for t in body):
+                raise Undecided(f"R19: closure of .find( in {fn} contains control flow")
+            rt = render(recv).strip()
+            body = list(body)
+            body[0] = Tok(body[0].kind, body[0].text, body[0].pos, " ")
+            ty_ann = f": Option<{elem_ty}>" if elem_ty else ""
+            # the closure sees `&&T`; a tuple pattern binds references to the fields either way (default binding modes)
+            new = [syn("{ " + f"let it_s__{tag} = &{rt}; let mut it_f__{tag}{ty_ann} = None; let mut {idx}: usize = 0;", first.pos, first.ws),
+                   Tok("ident", "while", first.pos, " "), syn(f"{idx} < it_s__{tag}.len() && it_f__{tag}.is_none()", first.pos, " "),
+                   Tok("punct", "{", first.pos, " "), syn(f"let {x.replace(',', ', ')} = &it_s__{tag}[{idx}];", first.pos, " "), _stop(syn("if", first.pos, " "))] + body + \
+                  [syn("{ " + f"it_f__{tag} = Some(&it_s__{tag}[{idx}]);" + " } else { " + f"{idx} += 1;" + " }", toks[hi].pos, " "), Tok("punct", "}", toks[hi].pos, " "),
+                   syn(f"it_f__{tag} " + "}", toks[hi].pos, " ")]
+            rep.rule("R19 slice.iter().find(closure) -> index loop returning the first matching element")
         else:
             raise Undecided(f"loopify: unsupported chain `{'.'.join(names)}` at .{meth}( #{k} in {fn}")
         toks = toks[:lo] + new + toks[hi + 1:]
